@@ -1,5 +1,5 @@
 // Script interpreter for C17 (eventpp::AnyData): replays every AnyData.tla cover script for EVERY stored type Obj<N, W_KIND>,
-// N = W_NMIN .. W_NMAX (template recursion, one translation unit), on AnyData<W_CAP> objects living in pre-filled raw storage
+// N = W_NMIN .. W_NMAX (template recursion, one translation unit), on AnyData<W_CAP> objects living in pre-filled raw heap blocks of exactly their size
 // and on an EventQueue<int, void (const AnyData<W_CAP> &)>; records NDJSON for TraceAnyData.tla.
 //   W_KIND  0 trivially copyable bytes (value in the first byte, the rest a pattern derived from it)
 //           1 tracked non-trivial: counts constructions / destructions, registers its address in the live-address set, checks that
@@ -150,10 +150,23 @@ template <> struct Sizes<3> { enum { First = (int)sizeof(std::shared_ptr<int>), 
 struct Facts { int hl, v, mf, st, ag, it, io, sp; long uc; };
 
 enum { MaxB = 3 };
-alignas(16) static unsigned char g_store[MaxB + 1][sizeof(AD) + 32];
+// every box lives in its own heap block of exactly sizeof(AnyData) bytes (pre-filled): a write past the AnyData hits a sanitizer red zone
+static void * g_store[MaxB + 1];
 static AD * B[MaxB + 1];
 static const void * g_prev[MaxB + 1];
-static void * fresh(int b) { std::memset(g_store[b], W_FILL, sizeof(g_store[b])); g_prev[b] = 0; return g_store[b]; }
+static void * fresh(int b)
+{
+	if(g_store[b]) std::free(g_store[b]);
+	g_store[b] = std::malloc(sizeof(AD));
+	std::memset(g_store[b], W_FILL, sizeof(AD));
+	g_prev[b] = 0;
+	return g_store[b];
+}
+static void destroyBox(int b)
+{
+	B[b]->~AD(); B[b] = 0; g_prev[b] = 0;
+	std::free(g_store[b]); g_store[b] = 0;
+}
 
 template <typename T, typename O1, typename O2>
 static Facts readFacts(const AD & d, int slot)
@@ -178,8 +191,11 @@ static Facts readFacts(const AD & d, int slot)
 
 static void put(const char * e, int o, int a, int b, const Facts & f, int sv, int sm)
 {
-	std::fprintf(g_out, "{\"e\":\"%s\",\"o\":%d,\"a\":%d,\"b\":%d,\"hl\":%d,\"v\":%d,\"mf\":%d,\"st\":%d,\"ag\":%d,\"it\":%d,\"io\":%d,\"sp\":%d,\"uc\":%ld,"
-		"\"sv\":%d,\"sm\":%d,\"lv\":%ld,\"k\":%d}\n", e, o, a, b, f.hl, f.v, f.mf, f.st, f.ag, f.it, f.io, f.sp, f.uc, sv, sm, g_live, W_KIND);
+	std::fprintf(g_out, "{\"e\":\"%s\",\"o\":%d,\"a\":%d,\"hl\":%d,\"v\":%d,\"mf\":%d,\"st\":%d,\"ag\":%d,\"it\":%d,\"io\":%d,\"sp\":%d,\"uc\":%ld,",
+		e, o, a, f.hl, f.v, f.mf, f.st, f.ag, f.it, f.io, f.sp, f.uc);
+	if(e[0] == 'c' || e[0] == 'r') std::fprintf(g_out, "\"sv\":%d,\"sm\":%d,", sv, sm);
+	(void)b;
+	std::fprintf(g_out, "\"lv\":%ld,\"k\":%d}\n", g_live, W_KIND);
 }
 static void putPlain(const char * e, int o, int a, int r)
 {
@@ -236,7 +252,7 @@ struct Exec
 			put("g", a, 0, 0, readFacts<T, O1, O2>(*B[a], a), 0, 0);
 		}
 		else if(k == "g") put("g", a, 0, 0, readFacts<T, O1, O2>(*B[a], a), 0, 0);
-		else if(k == "d") { B[a]->~AD(); B[a] = 0; g_prev[a] = 0; putPlain("d", a, 0, 0); }
+		else if(k == "d") { destroyBox(a); putPlain("d", a, 0, 0); }
 		else if(k == "q") {
 			int mode = b;
 			if(mode == 0 && ! CopyIn<T>::Can) mode = 1;
@@ -262,7 +278,7 @@ struct Exec
 			for(const Op & op : script) step(op, q, heard);
 			for(int b = 1; b <= MaxB; ++b) if(B[b]) {
 				put("g", b, 0, 0, readFacts<T, O1, O2>(*B[b], b), 0, 0);
-				B[b]->~AD(); B[b] = 0; putPlain("d", b, 0, 0);
+				destroyBox(b); putPlain("d", b, 0, 0);
 			}
 		}
 		std::fprintf(g_out, "{\"e\":\"rs\",\"lv\":%ld,\"k\":%d,\"sz\":%d,\"n\":%ld}\n", g_live, W_KIND, (int)N, g_script);
